@@ -1131,7 +1131,14 @@ pub const WORD_MARKER: &str = "// word size";
 /// literals above 2^32, `usize` values, shifts by constants, array indices, ranges, enum tags.
 pub fn word_program(p: &mut Prng) -> String {
     let big = *p.pick(&["4294967296", "4294967297", "5000000000", "1099511627776", "9223372036854775807", "18446744073709551615", "4294967295"]);
-    let body = match p.below(9) {
+    let body = match p.below(10) {
+        // enums with 2, 4, 8 variants: tag widths at the powers of two
+        9 => {
+            let n = *p.pick(&[2usize, 4, 8]);
+            let vs: Vec<String> = (0..n).map(|i| format!("    V{i},")).collect();
+            let arms: Vec<String> = (0..n).map(|i| format!("        E::V{i} => x ^ {}u8,", i + 1)).collect();
+            format!("enum E {{\n{}\n}}\n\npub fn main(e: E, x: u8) -> (u8, E) {{\n    let r = match e {{\n{}\n    }};\n    (r, e)\n}}", vs.join("\n"), arms.join("\n"))
+        }
         // redundancy: what the library's DEFAULT options (duplicate gates optimised) decide
         7 => "pub fn main(x: u8, y: u8) -> (u8, u8) {\n    (x + y, y + x)\n}".to_string(),
         8 => "pub fn main(x: u16, y: u16, c: bool) -> u16 {\n    let a = x ^ y;\n    let b = y ^ x;\n    if c { (a & x) + (x & b) } else { (a & y) + (b & y) }\n}".to_string(),
